@@ -15,12 +15,13 @@ TECHNIQUE = ('runtime monitoring: multiplicity observed on the metamodel vs inte
 RULE = ('exhaustive: every rule body built from <= 3 assignments (a=, a+=, b=, a=[falsy-capable types]) combined by sequence, '
         'ordered choice, optional, * and + repetition (with separator) and unordered group up to nesting depth 2 (quick) / '
         '<= 4 assignments depth 3 sampled (thorough); random deeper bodies (2-5 assignments, depth <= 4) with mixed value '
-        'rules (INT, ID, STRING, BOOL, FLOAT, a common rule). Per grammar: list-ness of every attribute vs reference '
+        'rules (INT, ID, STRING, BOOL, FLOAT, a common rule); half of the random grammars build several objects per model and reference a common rule without assignment (its object is built and dropped). Per grammar: list-ness of every attribute vs reference '
         'multiplicity; per input (derived, unique token values, falsy values first): acceptance and per-attribute value '
         'sequences vs the reference derivation; no "Multiple assignments" error on accepted input. distinct = (body '
         'skeleton, input token kinds); non-trivial = an attribute collects >= 2 values in that input')
 REQUIRED = {'grammars': 200, 'attributes_checked': 300, 'accepted_inputs': 500, 'inputs_with_falsy_first': 30,
-            'list_attrs_seen': 50, 'single_attrs_seen': 50}
+            'list_attrs_seen': 50, 'single_attrs_seen': 50,
+            'grammars_with_several_objects_and_dropped_subobjects': 100}
 
 VALS = ['INT', 'ID', 'STRING', 'BOOL', 'FLOAT']
 
@@ -188,11 +189,14 @@ def make_inputs(g, r, n, ctx):
     return out
 
 
-def rand_body(r, kw, depth, budget):
+def rand_body(r, kw, depth, budget, hdr=False):
     """random nested body assigning attributes a/b repeatedly"""
     c = r.random()
     if depth >= 4 or budget[0] <= 1 or c < 0.3:
         budget[0] -= 1
+        if hdr and r.random() < 0.3:
+            # reference to a common rule without assignment: its object is built and dropped
+            return Seq([kw(), Ref('Hdr')])
         attr = r.choice(['a', 'a', 'b'])
         op = r.choice(['=', '=', '=', '+=', '*='])
         val = r.choice(VALS + ['Sub'])
@@ -201,14 +205,14 @@ def rand_body(r, kw, depth, budget):
             a.sep = Lit(',')
         return Seq([kw(), a])
     def nn():
-        e = rand_body(r, kw, depth + 1, budget)
+        e = rand_body(r, kw, depth + 1, budget, hdr)
         return Seq([kw(), e]) if RP.nullable(e) else e
     if c < 0.55:
-        return Seq([rand_body(r, kw, depth + 1, budget) for _ in range(r.randint(2, 3))])
+        return Seq([rand_body(r, kw, depth + 1, budget, hdr) for _ in range(r.randint(2, 3))])
     if c < 0.7:
         return Choice([nn() for _ in range(r.randint(2, 3))])
     if c < 0.8:
-        return Opt(rand_body(r, kw, depth + 1, budget))
+        return Opt(rand_body(r, kw, depth + 1, budget, hdr))
     if c < 0.9:
         rp = Rep(nn(), r.randint(0, 1))
         if r.random() < 0.5:
@@ -229,8 +233,25 @@ def run_rand(ctx, i):
         _run_rand(ctx, i)
 
 
+def grammar_items(body):
+    """several objects per model; Hdr is a common rule that bodies reference without assignment"""
+    return Grammar([Rule('Model', Seq([Lit('begin'), Assign('items', '+=', Ref('Item')), Lit('end')])),
+                    Rule('Item', Seq([Lit('item'), body, Lit(';')])),
+                    Rule('Sub', Seq([Lit('<'), Assign('x', '=', Ref('INT')), Lit('>')])),
+                    Rule('Hdr', Seq([Lit('['), Assign('a', '=', Ref('INT')), Opt(Seq([Lit('/'), Assign('b', '=', Ref('ID'))])), Lit(']')]))])
+
+
 def _run_rand(ctx, i):
     r = ctx.rng('rand', i)
+    if i % 2:
+        ctx.count('grammars_with_several_objects_and_dropped_subobjects')
+        body = rand_body(r, Kw(), 0, [r.randint(2, 5)], hdr=True)
+        if not list(RP.assigns_in(body)):
+            # Item must stay a common rule
+            body = Seq([body, Lit('='), Assign('a', '=', Ref('INT'))])
+        g = grammar_items(body)
+        check_grammar(ctx, g, {'phase': 'rand', 'i': i}, r, 10, sample=(i < 3))
+        return
     g = grammar_for(rand_body(r, Kw(), 0, [r.randint(2, 5)]))
     # same attribute with different value rules makes the attribute type OBJECT: fine for this property
     check_grammar(ctx, g, {'phase': 'rand', 'i': i}, r, 10, sample=(i < 3))
